@@ -3,6 +3,11 @@
 R17.1 the q filter of http.parse_accept_header, R17.2 the selection loop of Accept.best_match and the staged
 fallbacks of LanguageAccept.best_match, R17.3 the order of the list (sort key, stability, first-match lookups,
 specificity), R17.4 wildcard acceptance and normaliser agreement of every _value_matches.
+
+Two layers: shape-based clauses (CFG dominance, reaching definitions, scenario evaluation of branch conditions) that
+give precise evidence on the usual spelling, and - for Accept.best_match, the first-match lookups and the sort in
+__init__ - a bounded exhaustive run of the function's statements on small inputs (`_arbitrate`), which decides
+whenever the shape-based clauses cannot be applied or do not hold.
 """
 
 from __future__ import annotations
@@ -15,34 +20,51 @@ from ..cfg import Node, cfg_of
 from ..fold import Folder, Unfoldable
 from ..loader import AnalysisError, AnchorMissing, ClassInfo, FuncInfo, dotted, nested_funcs, norm, walk_no_nested
 from ..report import Ctx
-from ._c17_helpers import UNK, Ev, FuncEval, Lang, crosscheck, fold_regex_expr, self_call, sole_method
+from ._c17_helpers import UNK, Ev, FuncEval, Lang, crosscheck, fold_regex_expr, normalised, self_call, sole_method
 
 LEVEL_TEXT = (
-    "Static decision of structural clauses of C17 on /repo's current source. (R17.1) In http.parse_accept_header every "
-    "quality that reaches result.append((item, q)) - followed back through plain copies and, one level, through a helper "
-    "of the same module that computes it - is either a constant in [0,1] (1 when the q parameter is absent) or "
-    "float() of a text that a dominating pattern test accepted (in the same function, in a one-line predicate helper, or "
-    "on the argument passed to the converting helper); the pattern's language (DFA built from the folded "
+    "Static decision of structural clauses of C17 on /repo's current source. Every clause is decided on what the code "
+    "computes, not on how it is spelled: statement-level conditional expressions are read as if statements; a name bound "
+    "on several branches (a flag set by if/else, a default a branch overrides, `x |= ...`) has, in a scenario, the value "
+    "of the binding that is live on the paths the scenario permits; helpers of the same module, methods nobody overrides, "
+    "local lambdas and nested functions are followed on the scenario's values. (R17.1) In http.parse_accept_header every "
+    "quality that reaches the (item, q) pair appended to the result - written at the append, built into a local before it, "
+    "or returned by an item helper of the same module whose None result the loop skips; followed back through plain copies "
+    "and, one level, through a helper that computes it (returning the quality, a (flag, quality) pair that the caller "
+    "unpacks, or raising an exception that a handler around the call turns into a skip) - is either a constant in [0,1] "
+    "(1 when the q parameter is absent) or float() of a text that a dominating test outcome implies the pattern accepted "
+    "(the match result tested directly, through `is None` / `not` / bool(), through a local or a flag set on the branches of "
+    "the test, in a predicate helper, on the argument passed to the converting helper; the text itself or the whole match "
+    "`m.group()`); from the failing outcome of that test the item is never handed on (no quality is made up for a "
+    "malformed q); the pattern's language (DFA built from the folded "
     "regex, cross-checked against the re engine) contains only plain ASCII decimal numerals, contains every RFC 9110 "
     "qvalue with a fraction, and for each of the value ranges q<0, q=0, 0<q<1, q=1, q>1 that the language inhabits the "
     "branch conditions between the conversion and the append (evaluated at one sample per range, exact for comparisons "
     "of q with constants; across the helper's return and the caller's test of it) drop the item exactly when it is "
-    "outside [0,1], by skipping it rather than raising; a text the helper rejects never reaches the append. (R17.2) In "
-    "Accept.best_match the chosen "
+    "outside [0,1], by skipping it rather than raising or substituting a quality; a text the helper rejects never reaches "
+    "the append. (R17.2) In Accept.best_match the chosen "
     "offer is replaced, on every path of the loop body, exactly when a client range matched, its quality is > 0 and "
     "(quality > best quality, or quality == best quality and specificity > best specificity): decided by evaluating the "
     "loop's branch conditions for all 18 order scenarios (q = 0 | q > 0) x (q vs best q) x (specificity vs best), plus the "
     "first-candidate scenarios with the initial state; the best-so-far state is updated together with the choice; "
     "offers are visited in caller order; after the loop the default is returned while nothing was chosen and the choice "
-    "otherwise; LanguageAccept.best_match, run statement by statement on sample client lists and offer lists (2- and "
+    "otherwise. When best_match is not one loop with best-so-far state (candidates collected then ranked by max() / a "
+    "stable sort / a second scan, ...), or a clause of that shape cannot be decided or does not hold, the function is "
+    "instead followed statement by statement on all 1000 lists of three offers (and the shorter ones), each offer unmatched or matched "
+    "with quality 0 / low / high and specificity low / middle / high, and must return the documented choice (first offer, "
+    "in caller order, with q > 0 whose (quality, specificity) no later offer exceeds; the default when there is none) - "
+    "that verdict then stands. LanguageAccept.best_match, run statement by statement on sample client lists and offer lists (2- and "
     "3-letter primary tags, '-' and '_' separators, offers sharing a primary tag) with every negotiation it starts answered "
     "by the scenario, negotiates in exactly the three documented stages (own ranges on the offers; an Accept of the ranges' "
     "primary tags with the client's q kept, on the offers; own ranges on the offers' primary tags), returns a stage's offer "
     "as soon as one is found, maps a negotiated primary tag back to the first offer carrying exactly that tag, and returns "
     "the default otherwise. (R17.3) Accept.__init__ stores the result of "
-    "one stable sort (sorted() or list.sort() of a fresh list) whose effective order is specificity (major), quality (minor), ties in client order; "
+    "one stable sort (sorted() or list.sort() of a fresh list) whose effective order is specificity (major), quality (minor), ties in client order "
+    "(otherwise decided by following __init__ on all 120 arrangements of five sample pairs: what reaches the list constructor "
+    "must be those pairs in that order); "
     "_best_single_match / quality return the first range in list order whose _value_matches(offer, range) holds "
-    "(return inside the scan, search loop with break, or next() over a generator); "
+    "(return inside the scan, search loop with break, or next() over a generator; otherwise decided by following the "
+    "function on three ranges for each of the 8 subsets of them that match); "
     "every _specificity ranks wildcards below concrete values; parse_accept_header only appends. (R17.4) every "
     "_value_matches accepts the wildcard range(s) of its family and compares both operands under the same normaliser "
     "(scenario tables per family, each scenario followed statement by statement through the method and the helpers it "
@@ -61,6 +83,8 @@ ASSUMPTIONS = [
     "Accept lists are not reordered after construction (ImmutableList, property C08)",
     "scenario samples stand for order classes: branch conditions in the analysed loops are order comparisons between the scenario's quantities (anything else is treated as unknown and keeps both branches)",
     "helpers are followed when they are functions of the same module called by their bare name, or methods that no class of the Accept hierarchy overrides; their statements are interpreted on the scenario's constants (str / list / dict / re operations on folded patterns), never imported or run",
+    "following a function statement by statement means interpreting its syntax tree on sample values (assignments, branches, loops, comprehensions, sorted/max/min with key functions, list mutations); a statement outside that subset (try blocks, attribute stores other than on self, unknown calls with effects) makes the function not followable, and the shape-based verdict (or ANALYSIS-ERROR) stands",
+    "Accept.best_match is judged on offer lists of up to three offers over three quality and three specificity levels: a selection written with order comparisons of (quality, specificity) that is wrong is wrong on one of them",
     "LanguageAccept.best_match is judged on sample lists: tags are split at the first '-' or '_' (the documented primary-tag fallback); the samples cover 2/3-letter tags, both separators and offers that share a primary tag",
     "offers passed by the application are concrete values (no wildcards)",
 ]
@@ -101,6 +125,17 @@ def _in_order(e: ast.AST | None, name: str) -> bool:
         return _in_order(e.args[0], name)
     if isinstance(e, ast.Subscript) and isinstance(e.slice, ast.Slice) and e.slice.lower is None and e.slice.upper is None and e.slice.step is None:
         return _in_order(e.value, name)
+    return False
+
+
+def _reordered(e: ast.AST | None, name: str) -> bool:
+    """e iterates the elements of ``name`` in another order (reversed / sorted / a stepped slice of it)."""
+    if isinstance(e, ast.Call) and isinstance(e.func, ast.Name) and e.func.id in ("reversed", "sorted") and e.args:
+        return _in_order(e.args[0], name) or _reordered(e.args[0], name)
+    if isinstance(e, ast.Call) and isinstance(e.func, ast.Name) and e.func.id in ("list", "tuple", "iter") and len(e.args) == 1:
+        return _reordered(e.args[0], name)
+    if isinstance(e, ast.Subscript) and isinstance(e.slice, ast.Slice):
+        return _in_order(e.value, name) or _reordered(e.value, name)
     return False
 
 
@@ -170,68 +205,219 @@ def _module_helper(fi: FuncInfo, fe: FuncEval, node: Node | None, call: ast.AST 
     if node is not None and fe.rd.reaching(node, call.func.id):
         return None  # a local binding shadows the module-level name
     h = fi.module.functions.get(call.func.id)
-    if h is None or h is fi or len(h.params) != len(call.args) or isinstance(h.node, ast.AsyncFunctionDef):
+    if h is None or h.fq == fi.fq or len(h.params) != len(call.args) or isinstance(h.node, ast.AsyncFunctionDef):
         return None
     if any(isinstance(x, (ast.Yield, ast.YieldFrom)) for x in ast.walk(h.node)):
         return None
-    return h
+    return normalised(h)
 
 
-def _regex_test(ctx: Ctx, folder: Folder, fi: FuncInfo, fe: FuncEval, tnode: Node, label: str | None):
-    """(regex, name, mode, subject expr, node of the call, label of the edge on which it matched) when the test atom
-    is the outcome of <pattern>.fullmatch/match/search(subject); label None = any.  A predicate helper of the same module
-    whose body is `return <pattern test on its parameter>` is looked through."""
-    atom = tnode.ast
-    want = "T"
-    x: ast.AST | None = atom
-    if isinstance(atom, ast.Compare) and len(atom.ops) == 1 and astq.is_none(atom.comparators[0]):
-        if isinstance(atom.ops[0], (ast.Is, ast.Eq)):
-            want = "F"
-        elif isinstance(atom.ops[0], (ast.IsNot, ast.NotEq)):
-            want = "T"
-        else:
+class _Fact(t.NamedTuple):
+    """<pattern>.<mode>(<subject>) found a match: what an outcome of a test (or a value being truthy) implies."""
+
+    rx: t.Any
+    name: str
+    mode: str
+    subject: ast.AST
+    at: Node  # node at which the subject expression is evaluated
+    call: ast.AST  # the pattern call itself (its value is the match object)
+    fi: FuncInfo  # function the subject expression belongs to
+
+
+def _same_fact(a: _Fact, b: _Fact) -> bool:
+    return a.rx == b.rx and a.mode == b.mode and a.fi is b.fi and norm(a.subject) == norm(b.subject)
+
+
+def _match_fact(ctx: Ctx, folder: Folder, fi: FuncInfo, fe: FuncEval, e: ast.AST | None, node: Node, want: bool, depth: int = 0) -> _Fact | None:
+    """the pattern match that `bool(e) == want` implies (e evaluated at ``node`` of fi), if any.  Decided on meaning:
+    `x is None` / `is not None` / `not x` / `bool(x)` / walrus wrappers, a conjunction that holds (a disjunction that
+    fails), a local - every binding of it that is compatible with the outcome must imply the same match: a binding to
+    an expression through that expression, a binding to a constant (a flag set on the branches of an earlier test)
+    through the edges that dominate the binding - and a predicate helper of the same module that returns such a value
+    computed from its parameter."""
+    if e is None or depth > 6:
+        return None
+    if isinstance(e, ast.NamedExpr):
+        return _match_fact(ctx, folder, fi, fe, e.value, node, want, depth + 1)
+    if isinstance(e, ast.UnaryOp) and isinstance(e.op, ast.Not):
+        return _match_fact(ctx, folder, fi, fe, e.operand, node, not want, depth + 1)
+    if isinstance(e, ast.Compare) and len(e.ops) == 1 and (astq.is_none(e.comparators[0]) or astq.is_none(e.left)):
+        x = e.left if astq.is_none(e.comparators[0]) else e.comparators[0]
+        if isinstance(e.ops[0], (ast.Is, ast.Eq)):
+            return _match_fact(ctx, folder, fi, fe, x, node, True, depth + 1) if not want else None
+        if isinstance(e.ops[0], (ast.IsNot, ast.NotEq)):
+            return _match_fact(ctx, folder, fi, fe, x, node, True, depth + 1) if want else None
+        return None
+    if isinstance(e, ast.BoolOp) and (isinstance(e.op, ast.And) if want else isinstance(e.op, ast.Or)):
+        for x in e.values:  # all conjuncts hold / all disjuncts fail: any of them may carry the fact
+            r = _match_fact(ctx, folder, fi, fe, x, node, want, depth + 1)
+            if r is not None:
+                return r
+        return None
+    if isinstance(e, ast.IfExp):
+        a, b = (_match_fact(ctx, folder, fi, fe, x, node, want, depth + 1) for x in (e.body, e.orelse))
+        ca, cb = (isinstance(x, ast.Constant) and bool(x.value) != want for x in (e.body, e.orelse))
+        if cb and not ca:  # `<value> if <test> else <constant the outcome excludes>`
+            return a or _match_fact(ctx, folder, fi, fe, e.test, node, True, depth + 1)
+        if ca and not cb:
+            return b or _match_fact(ctx, folder, fi, fe, e.test, node, False, depth + 1)
+        return a if a is not None and b is not None and _same_fact(a, b) else None
+    if isinstance(e, ast.Name):
+        defs = fe.rd.reaching(node, e.id)
+        found: _Fact | None = None
+        n_ok = 0
+        for d in defs:
+            if d.node is None:
+                return None
+            v = d.value if _plain(d) else FuncEval._literal_elt(d) if d.kind == "unpack" else None
+            if v is None:
+                return None
+            r: _Fact | None = None
+            if isinstance(v, ast.Constant):
+                if bool(v.value) != want:
+                    continue  # this binding cannot produce the outcome
+                for tn, lb in fe.cfg.guards(d.node):
+                    if tn.kind == "test" and lb in ("T", "F"):
+                        r = _match_fact(ctx, folder, fi, fe, tn.ast, tn, lb == "T", depth + 1) or r
+            else:
+                r = _match_fact(ctx, folder, fi, fe, v, d.node, want, depth + 1)
+            if r is None or (found is not None and not _same_fact(found, r)):
+                return None
+            found = found or r
+            n_ok += 1
+        return found if n_ok else None
+    if not isinstance(e, ast.Call):
+        return None
+    if astq.is_name(e.func, "bool") and len(e.args) == 1 and not e.keywords:
+        return _match_fact(ctx, folder, fi, fe, e.args[0], node, want, depth + 1)
+    if isinstance(e.func, ast.Attribute) and e.func.attr in ("fullmatch", "match", "search"):
+        if not want or len(e.args) != 1 or e.keywords:
             return None
-        x = atom.left
-    if label is not None and label != want:
-        return None
-    at = tnode
-    if isinstance(x, ast.NamedExpr):
-        x = x.value
-    if isinstance(x, ast.Name):
-        defs = fe.rd.reaching(tnode, x.id)
-        if len(defs) != 1:
+        r2 = fold_regex_expr(ctx.repo, folder, fi, e.func.value)
+        return _Fact(r2[0], r2[1], e.func.attr, e.args[0], node, e, fi) if r2 is not None else None
+    h = _module_helper(fi, fe, node, e)
+    if h is not None:
+        # predicate helper: every value it can return that is compatible with the outcome implies a match on a parameter
+        feh = FuncEval(ctx.repo, folder, h)
+        found = None
+        n_ok = 0
+        for r_ in astq.returns_of(h.node):
+            rn = feh.cfg.node_of(r_)
+            if rn is None or r_.value is None:
+                return None
+            if isinstance(r_.value, ast.Constant):
+                if bool(r_.value.value) != want:
+                    continue
+                r = None
+                for tn, lb in feh.cfg.guards(rn):
+                    if tn.kind == "test" and lb in ("T", "F"):
+                        r = _match_fact(ctx, folder, h, feh, tn.ast, tn, lb == "T", depth + 1) or r
+            else:
+                r = _match_fact(ctx, folder, h, feh, r_.value, rn, want, depth + 1)
+            if r is None or (found is not None and not _same_fact(found, r)):
+                return None
+            found = found or r
+            n_ok += 1
+        if found is None or not n_ok or found.fi is not h:
             return None
-        d = next(iter(defs))
-        if d.kind not in ("assign", "walrus") or d.index is not None or d.node is None:
+        # falling off the end returns None: a falsy outcome that implies nothing
+        if not want and any(not isinstance(p.ast, ast.Return) for p, _ in feh.cfg.exit.preds):
             return None
-        x, at = d.value, d.node
-    if isinstance(x, ast.Call) and astq.is_name(x.func, "bool") and len(x.args) == 1 and not x.keywords:
-        x = x.args[0]
-    h = _module_helper(fi, fe, at, x)
-    if h is not None and len(h.params) == 1 and isinstance(x, ast.Call):
-        body = [s for s in h.node.body if not (isinstance(s, ast.Expr) and isinstance(s.value, ast.Constant))]  # type: ignore[attr-defined]
-        if len(body) == 1 and isinstance(body[0], ast.Return) and body[0].value is not None:
-            e = body[0].value
-            if isinstance(e, ast.Call) and astq.is_name(e.func, "bool") and len(e.args) == 1 and not e.keywords:
-                e = e.args[0]
-            if isinstance(e, ast.Compare) and len(e.ops) == 1 and astq.is_none(e.comparators[0]) and isinstance(e.ops[0], (ast.IsNot, ast.NotEq)):
-                e = e.left
-            if isinstance(e, ast.Call) and isinstance(e.func, ast.Attribute) and e.func.attr in ("fullmatch", "match", "search") and len(e.args) == 1 and not e.keywords and astq.is_name(e.args[0], h.params[0]):
-                r = fold_regex_expr(ctx.repo, folder, h, e.func.value)
-                if r is not None:
-                    return r[0], r[1], e.func.attr, x.args[0], at, want
-        return None
-    if not (isinstance(x, ast.Call) and isinstance(x.func, ast.Attribute) and x.func.attr in ("fullmatch", "match", "search")):
-        return None
-    if len(x.args) != 1 or x.keywords:
-        return None
-    r = fold_regex_expr(ctx.repo, folder, fi, x.func.value)
-    if r is None:
-        return None
-    return r[0], r[1], x.func.attr, x.args[0], at, want
+        sub = found.subject
+        if not (isinstance(sub, ast.Name) and sub.id in h.params and {d.kind for d in feh.rd.reaching(found.at, sub.id)} == {"param"}):
+            return None
+        return _Fact(found.rx, found.name, found.mode, e.args[h.params.index(sub.id)], node, e, fi)
+    return None
 
 
-_RAISE = _Sent("raises")
+def _copy_free(fe: FuncEval, e: ast.AST, node: Node) -> tuple[str, tuple]:
+    """e with locals that are plain copies of another local replaced by it: (text, bindings of the remaining names)."""
+    class T(ast.NodeTransformer):
+        def __init__(self) -> None:
+            self.binds: list[tuple[str, frozenset]] = []
+
+        def visit_Name(self, n: ast.Name) -> ast.AST:
+            nm, at = n.id, node
+            for _ in range(5):
+                ds = fe.rd.reaching(at, nm)
+                d = next(iter(ds)) if len(ds) == 1 else None
+                if d is None or not _plain(d) or not isinstance(d.value, ast.Name):
+                    break
+                nm, at = d.value.id, d.node
+            self.binds.append((nm, fe.rd.reaching(at, nm)))
+            return ast.Name(id=nm, ctx=ast.Load())
+
+    tr = T()
+    out = tr.visit(ast.parse(ast.unparse(e), mode="eval").body)
+    return norm(out), tuple(sorted(tr.binds, key=lambda x: x[0]))
+
+
+def _converted_text_matched(fe: FuncEval, fact: _Fact, arg: ast.AST, at: Node) -> bool:
+    """the text handed to float() at ``at`` is the text the pattern matched: the same expression over the same bindings
+    (plain copies looked through), or the whole match `m.group()` / `m.group(0)` / `m[0]` of that very match object."""
+    if _copy_free(fe, fact.subject, fact.at) == _copy_free(fe, arg, at):
+        return True
+    m: ast.AST | None = None
+    if isinstance(arg, ast.Call) and isinstance(arg.func, ast.Attribute) and arg.func.attr == "group" and not arg.keywords and (not arg.args or (len(arg.args) == 1 and _num_const(arg.args[0]) == 0)):
+        m = arg.func.value
+    elif isinstance(arg, ast.Subscript) and _num_const(arg.slice) == 0:
+        m = arg.value
+    for _ in range(5):
+        if not isinstance(m, ast.Name):
+            break
+        ds = fe.rd.reaching(at, m.id)
+        d = next(iter(ds)) if len(ds) == 1 else None
+        if d is None or not _plain(d) or d.node is None:
+            return False
+        m, at = d.value, d.node
+        if isinstance(m, ast.NamedExpr):
+            m = m.value
+    return m is fact.call
+
+
+class _Raised:
+    """outcome of a helper call: an exception of class ``exc`` (None: not identified) instead of a value."""
+
+    def __init__(self, exc: str | None):
+        self.exc = exc
+
+    def __eq__(self, other: object) -> bool:
+        return isinstance(other, _Raised) and other.exc == self.exc
+
+    def __hash__(self) -> int:
+        return hash(("raised", self.exc))
+
+    def __repr__(self) -> str:
+        return f"<raises {self.exc or 'an exception'}>"
+
+
+def _raised_name(st: ast.AST | None) -> str | None:
+    e = st.exc if isinstance(st, ast.Raise) else None
+    if isinstance(e, ast.Call):
+        e = e.func
+    return e.id if isinstance(e, ast.Name) else None
+
+
+def _handler_covers(typ: ast.AST | None, exc: str | None) -> bool | None:
+    """does `except <typ>` catch an exception of builtin class ``exc``: True / False / None (cannot tell)."""
+    import builtins
+
+    if typ is None:
+        return True
+    names = [dotted(x) for x in (typ.elts if isinstance(typ, ast.Tuple) else [typ])]
+    if any(nm in ("Exception", "BaseException") for nm in names):
+        return True
+    ec = getattr(builtins, exc, None) if exc else None
+    if not (isinstance(ec, type) and issubclass(ec, BaseException)):
+        return None
+    verdict: bool | None = False
+    for nm in names:
+        hc = getattr(builtins, nm, None) if nm else None
+        if not (isinstance(hc, type) and issubclass(hc, BaseException)):
+            verdict = None
+        elif issubclass(ec, hc):
+            return True
+    return verdict
 
 
 class _RetSrc:
@@ -245,6 +431,16 @@ class _RetSrc:
         self.node = node
         self.stmt = stmt
         self.value = stmt.value
+
+
+class _ArmSrc:
+    """one element of `a, q = x, float(<text>)`: the conversion as a definition of its own."""
+
+    kind = "assign"
+    index = None
+
+    def __init__(self, d: t.Any, value: ast.AST):
+        self.node, self.stmt, self.name, self.value = d.node, d.stmt, d.name, value
 
 
 def _is_float_call(repo: t.Any, fi: FuncInfo, v: ast.AST | None) -> bool:
@@ -283,9 +479,18 @@ def _cmp_consts(fn: ast.AST, names: set[str]) -> set[float]:
     return out
 
 
+class _Sink(t.NamedTuple):
+    """a place where an (item, quality) pair is handed on towards the Accept list."""
+
+    stmt: ast.AST  # the append call / the return statement
+    node: Node  # its CFG node: reaching it means the item is kept
+    q: ast.AST  # the quality expression of the pair
+    qnode: Node  # node at which that expression is evaluated
+
+
 def _r171(ctx: Ctx, folder: Folder) -> None:
     repo = ctx.repo
-    fi = repo.func("http.parse_accept_header")
+    fi = normalised(repo.func("http.parse_accept_header"))
     ctx.saw(fi)
     base = FuncEval(repo, folder, fi)
     cfg, rd = base.cfg, base.rd
@@ -298,11 +503,10 @@ def _r171(ctx: Ctx, folder: Folder) -> None:
             lists.add(v.args[0].id)
     appends = [
         c for c in astq.method_calls(fi.node, "append", nested=False)
-        if isinstance(c.func, ast.Attribute) and isinstance(c.func.value, ast.Name) and c.func.value.id in lists
-        and len(c.args) == 1 and isinstance(c.args[0], ast.Tuple) and len(c.args[0].elts) == 2
+        if isinstance(c.func, ast.Attribute) and isinstance(c.func.value, ast.Name) and c.func.value.id in lists and len(c.args) == 1 and not c.keywords
     ]
     if not appends:
-        raise AnalysisError("parse_accept_header: no <list>.append((item, q)) feeding the returned Accept (append slot)")
+        raise AnalysisError("parse_accept_header: no <list>.append(<pair>) feeding the returned Accept (append slot)")
     loops = {id(l): l for l in (astq.enclosing(a, (ast.For,)) for a in appends) if l is not None}
     if len(loops) != 1:
         raise AnalysisError("parse_accept_header: appends are not inside one item loop")
@@ -326,16 +530,19 @@ def _r171(ctx: Ctx, folder: Folder) -> None:
     ctx.ob("R17.3", "parse_accept_header keeps the client's order: the result list only grows by append", not other,
            f"{len(appends)} append site(s); other mutations of the list: {[norm(o) for o in other]}", fi, other[0] if other else appends[0], "result list append-only")
 
-    # ---- where the appended quality comes from: reaching definitions, plain copies followed back to their origin ----
-    origins: list[tuple[t.Any, list]] = []  # (origin Def in parse_accept_header, chain of Defs from the appended name back to it)
+    # ---- what is appended: a pair written out at the append, a pair built into a local before it, or the result of an
+    # item helper of this module that returns the pair (or None for an item to be ignored) ----
+    sinks: list[_Sink] = []
+    helper_defs: list[tuple[t.Any, list, ast.Call, Node]] = []  # (definition `p = helper(...)`, copies up to the append, append call, its node)
     for a, an in zip(appends, a_nodes):
-        qe = a.args[0].elts[1]  # type: ignore[attr-defined]
-        if not isinstance(qe, ast.Name):
-            raise AnalysisError(f"parse_accept_header: appended quality `{norm(qe)}` is not a local name (quality slot)")
-        defs = rd.reaching(an, qe.id)  # type: ignore[arg-type]
-        if not defs:
-            raise AnalysisError(f"parse_accept_header: no definition of `{qe.id}` reaches the append")
-        for d in sorted(defs, key=lambda d: getattr(d.stmt, "lineno", 0)):
+        assert an is not None
+        x = a.args[0]
+        if isinstance(x, ast.Tuple) and len(x.elts) == 2:
+            sinks.append(_Sink(a, an, x.elts[1], an))
+            continue
+        if not isinstance(x, ast.Name):
+            raise AnalysisError(f"parse_accept_header: appended value `{norm(x)}` is neither an (item, quality) pair nor a local holding one (append slot)")
+        for d in sorted(rd.reaching(an, x.id), key=lambda d: getattr(d.stmt, "lineno", 0)):
             chain = [d]
             while _plain(d) and isinstance(d.value, ast.Name) and len(chain) < 6:
                 ds = rd.reaching(d.node, d.value.id)
@@ -343,6 +550,89 @@ def _r171(ctx: Ctx, folder: Folder) -> None:
                     break
                 d = next(iter(ds))
                 chain.append(d)
+            v = d.value if _plain(d) else None
+            if isinstance(v, ast.Tuple) and len(v.elts) == 2:
+                sinks.append(_Sink(a, an, v.elts[1], d.node))
+            elif _module_helper(fi, base, d.node, v) is not None:
+                helper_defs.append((d, chain, a, an))
+            else:
+                raise AnalysisError(f"parse_accept_header: cannot interpret `{norm(d.stmt) if d.stmt is not None else d.kind}`, which is appended to the result (expected an (item, quality) pair or an item helper of this module)")
+    if helper_defs and sinks:
+        raise AnalysisError("parse_accept_header: pairs come both from an item helper and from the loop body (append slot)")
+    if not helper_defs:
+        _quality_paths(ctx, folder, fi, base, sinks, ends)
+        return
+    helpers = {_module_helper(fi, base, d.node, d.value).fq: _module_helper(fi, base, d.node, d.value) for d, _c, _a, _n in helper_defs}  # type: ignore[union-attr]
+    if len(helpers) != 1:
+        raise AnalysisError(f"parse_accept_header: items parsed by several helpers {sorted(helpers)} (append slot)")
+    H = next(iter(helpers.values()))
+    ctx.saw(H)
+    feH = FuncEval(repo, folder, H)
+    h_sinks: list[_Sink] = []
+    for r in astq.returns_of(H.node):
+        rn = feH.cfg.node_of(r)
+        assert rn is not None
+        if isinstance(r.value, ast.Tuple) and len(r.value.elts) == 2:
+            h_sinks.append(_Sink(r, rn, r.value.elts[1], rn))
+        elif not (r.value is None or astq.is_none(r.value)):
+            raise AnalysisError(f"{H.qualname}: `{norm(r)}` is neither an (item, quality) pair nor None (item helper slot)")
+    if not h_sinks:
+        raise AnalysisError(f"{H.qualname}: no `return <item>, <quality>` (item helper slot)")
+    # the helper decides which items are kept (returning the pair) and with which quality ...
+    _quality_paths(ctx, folder, H, feH, h_sinks, {feH.cfg.exit.id, feH.cfg.raise_exit.id})
+    # ... and parse_accept_header appends exactly the pairs it returns
+    for d, chain, a, an in helper_defs:
+        names = {x.name for x in chain}
+        for label, value in (("None (item to be ignored)", None), ("an (item, quality) pair", ("<item>", 0.5))):
+            fe = FuncEval(repo, folder, fi)
+            for x in chain:
+                fe.pinned[x] = value
+            starts = [s_ for s_, l in d.node.succs if l != "exc"] if d.node.kind == "stmt" else [d.node]
+            seen = fe.explore(starts, stop=a_ids | ends)
+            seen2 = fe.explore(starts, stop=ends, avoid=a_ids, definite=True)
+            blocking = [tn for tn in fe.unknown_tests if astq.names_in(tn.ast) & names]  # type: ignore[arg-type]
+            if blocking:
+                raise AnalysisError(f"parse_accept_header: cannot evaluate `{norm(blocking[0].ast)}` when {H.qualname} returns {label}")  # type: ignore[arg-type]
+            if value is None:
+                ctx.ob("R17.1", f"an item for which {H.qualname} returns None is not appended", not (seen & a_ids),
+                       f"`{norm(d.stmt)}`: with that result the item {'reaches' if seen & a_ids else 'never reaches'} `{norm(a)}`", fi, d.stmt, "item helper rejection ignored")
+            else:
+                ok = bool(seen & a_ids) and not (seen2 & ends)
+                ctx.ob("R17.1", f"a pair returned by {H.qualname} is always appended", ok,
+                       f"`{norm(d.stmt)}`: with a pair the item {'always reaches' if ok else 'can miss'} `{norm(a)}`", fi, d.stmt, "item helper pair appended")
+
+
+def _quality_paths(ctx: Ctx, folder: Folder, fi: FuncInfo, base: FuncEval, sinks: list[_Sink], ends: set[int]) -> None:
+    """R17.1 for the function ``fi`` that decides, per item, whether an (item, quality) pair is handed on (``sinks``) or
+    the item is dropped (``ends`` reached without passing a sink): parse_accept_header itself, or its item helper."""
+    repo = ctx.repo
+    cfg, rd = base.cfg, base.rd
+    a_ids = {sk.node.id for sk in sinks}
+    here = fi.qualname
+
+    # ---- where the quality of a pair comes from: reaching definitions, plain copies followed back to their origin ----
+    origins: list[tuple[t.Any, list]] = []  # (origin Def, chain of Defs from the pair's quality name back to it)
+    literal: list[tuple[_Sink, float | int]] = []
+    for sk in sinks:
+        qe = sk.q
+        if _num_const(qe) is not None:
+            literal.append((sk, _num_const(qe)))  # type: ignore[arg-type]
+            continue
+        if not isinstance(qe, ast.Name):
+            raise AnalysisError(f"{here}: quality `{norm(qe)}` of the pair is not a local name (quality slot)")
+        defs = rd.reaching(sk.qnode, qe.id)
+        if not defs:
+            raise AnalysisError(f"{here}: no definition of `{qe.id}` reaches the pair")
+        work = [[d] for d in sorted(defs, key=lambda d: getattr(d.stmt, "lineno", 0))]
+        while work:
+            chain = work.pop(0)
+            d = chain[-1]
+            if _plain(d) and isinstance(d.value, ast.Name) and len(chain) < 6:
+                # a plain copy: every binding of the copied name that reaches it is followed
+                ds = [x for x in sorted(rd.reaching(d.node, d.value.id), key=lambda x: getattr(x.stmt, "lineno", 0)) if not any(x is y for y in chain)]
+                if ds and all(x.node is not None for x in ds):
+                    work[:0] = [chain + [x] for x in ds]
+                    continue
             known = next((o for o in origins if o[0] is d), None)
             if known is None:
                 origins.append((d, chain))
@@ -351,84 +641,139 @@ def _r171(ctx: Ctx, folder: Folder) -> None:
     carried = {x.name for _, ch in origins for x in ch}  # names that carry a quality towards the append
     all_q_defs = [d for ds in rd.gen.values() for d in ds if d.name in carried]
 
+    rejected: dict[str, list[Node]] = {}  # quality helper -> nodes that follow the failing outcome of its pattern test
     raised: list[bool] = [False]  # side result of kept()/outcome(): the scenario forces an exception (instead of skipping the item)
 
-    def kept(chain: list, value: t.Any) -> tuple[bool, bool, list[Node]]:
+    def unpacked(d: t.Any) -> bool:
+        """d binds one component of a call result (`flag, q = helper(...)`)."""
+        return d.kind == "unpack" and FuncEval._literal_elt(d) is None and d.index is not None
+
+    def component(d0: t.Any, value: t.Any) -> t.Any:
+        """the quality inside what the origin's expression evaluates to."""
+        if not unpacked(d0):
+            return value
+        return FuncEval._index(value, d0) if isinstance(value, (tuple, list)) else UNK
+
+    def kept(chain: list, value: t.Any, item: bool = False) -> tuple[bool, bool, list[Node]]:
         """(may reach the append, is forced to end the iteration without it, undecided tests that mention the quality)
-        when the origin of ``chain`` (and so every copy of it) holds ``value``."""
+        when the expression bound by the origin of ``chain`` evaluates to ``value`` (every copy holds the quality in it;
+        the other names bound by the same unpacking hold their components).  Paths on which the quality is bound anew
+        are left out, unless ``item``: then the question is whether the item is appended at all, with whatever quality
+        (a text that must be ignored and is appended under a substituted quality is not ignored)."""
         fe = FuncEval(repo, folder, fi)
-        for x in chain:
-            fe.pinned[x] = value
         d0 = chain[-1]
         names = {x.name for x in chain}
-        avoid = {o.node.id for o in all_q_defs if not any(o is x for x in chain) and o.node is not None}
-        seen = fe.explore([d0.node], stop=a_ids | ends, avoid=avoid)
+        if unpacked(d0):
+            if not isinstance(value, (tuple, list)):
+                raise AnalysisError(f"{here}: `{norm(d0.stmt)}` cannot unpack {value!r}")
+            for d in rd.gen.get(d0.node.id, []):
+                if d.kind == "unpack" and d.stmt is d0.stmt and d.index is not None:
+                    fe.pinned[d] = FuncEval._index(value, d)
+                    names.add(d.name)
+        for x in chain:
+            fe.pinned[x] = component(d0, value)
+        avoid = set() if item else {o.node.id for o in all_q_defs if not any(o is x for x in chain) and o.node is not None}
+        # the binding happened: the statement did not raise
+        starts = [s_ for s_, l in d0.node.succs if l != "exc"] if d0.node.kind == "stmt" else [d0.node]
+        seen = fe.explore(starts, stop=a_ids | ends, avoid=avoid)
         may_reach = bool(seen & a_ids)
         # a drop is reported only when the scenario forces it (every test on the way is decided by the value of q):
         # an undecided test on the way (e.g. the validity of the q text, on the way from a default) is someone else's reason
-        seen2 = fe.explore([d0.node], stop=ends, avoid=avoid | a_ids, definite=True)
+        seen2 = fe.explore(starts, stop=ends, avoid=avoid | a_ids, definite=True)
         must_skip = bool(seen2 & ends)
         raised[0] = cfg.raise_exit.id in seen2
         blocking = [tn for tn in fe.unknown_tests if astq.names_in(tn.ast) & names]  # type: ignore[arg-type]
         return may_reach, must_skip, blocking
 
+    def after_raise(d0: t.Any, exc: str | None) -> tuple[bool, bool]:
+        """the expression bound by d0 raises ``exc`` instead of yielding a value: (the exception escapes
+        parse_accept_header, the item can still reach the append) - through the handlers around the statement."""
+        for h, l in sorted(d0.node.succs, key=lambda x: x[0].id):
+            if l != "exc" or h.kind != "handler":
+                continue
+            cov = _handler_covers(h.ast.type, exc)  # type: ignore[union-attr]
+            if cov is None:
+                raise AnalysisError(f"{here}: cannot tell whether `except {norm(h.ast.type)}` catches {exc or 'the exception'} raised by `{norm(d0.stmt)}`")  # type: ignore[union-attr]
+            if cov:
+                fe = FuncEval(repo, folder, fi)
+                seen = fe.explore([h], stop=a_ids | ends)
+                seen2 = fe.explore([h], stop=a_ids | ends, definite=True)
+                return cfg.raise_exit.id in seen2, bool(seen & a_ids)
+        return True, False
+
     def through_helper(H: FuncInfo, dH: t.Any, value: float, definite: bool) -> tuple[list[t.Any], list[Node]]:
-        """what helper H hands back once its conversion dH produced ``value``: returned values (_RAISE for a raise)."""
+        """what helper H hands back once its conversion dH produced ``value``: returned values (_Raised for a raise)."""
         if isinstance(dH, _RetSrc):
             return [value], []
         feH = FuncEval(repo, folder, H)
         feH.pinned[dH] = value
         avoid = {o.node.id for ds in feH.rd.gen.values() for o in ds if o.name == dH.name and o is not dH and o.node is not None}
-        seen = feH.explore([dH.node], avoid=avoid, definite=definite)
+        starts = [s_ for s_, l in dH.node.succs if l != "exc"] if dH.node.kind == "stmt" else [dH.node]
+        seen = feH.explore(starts, avoid=avoid, definite=definite)
         vals: list[t.Any] = []
+        named = False
         for n in feH.cfg.nodes:
             if n.id in seen and n.kind == "stmt" and isinstance(n.ast, ast.Return):
                 vals.append(feH.ev_at(n).val(n.ast.value) if n.ast.value is not None else None)
+            if n.id in seen and n.kind == "stmt" and isinstance(n.ast, ast.Raise) and (n.id, feH.cfg.raise_exit.id) in feH.edges:
+                vals.append(_Raised(_raised_name(n.ast)))
+                named = True
         if any((p.id, feH.cfg.exit.id) in feH.edges and not isinstance(p.ast, ast.Return) for p, _ in feH.cfg.exit.preds):
             vals.append(None)
-        if feH.cfg.raise_exit.id in seen:
-            vals.append(_RAISE)
+        if feH.cfg.raise_exit.id in seen and not named:
+            vals.append(_Raised(None))
         names = _alias_names(feH, dH.name)
         return vals, [tn for tn in feH.unknown_tests if astq.names_in(tn.ast) & names]  # type: ignore[arg-type]
 
-    def outcome(chain: list, value: float, via: tuple[FuncInfo, t.Any] | None) -> tuple[bool, bool, list[Node]]:
+    def same(v: t.Any, w: t.Any) -> bool:
+        return v is w or (type(v) is type(w) and v is not UNK and v == w)
+
+    def outcome(chain: list, value: float, via: tuple[FuncInfo, t.Any] | None, item: bool = False) -> tuple[bool, bool, list[Node]]:
         if via is None:
-            return kept(chain, value)
+            return kept(chain, value, item)
         H, dH = via
         may_vals, blk = through_helper(H, dH, value, False)
         if blk:
             return False, False, blk
-        if any(v is UNK for v in may_vals):
-            raise AnalysisError(f"parse_accept_header: cannot evaluate what {H.qualname} returns for q={value:g}")
+        if any(v is UNK or (isinstance(v, (tuple, list)) and any(x is UNK for x in v)) for v in may_vals):
+            raise AnalysisError(f"{here}: cannot evaluate what {H.qualname} returns for q={value:g}")
         def_vals, _ = through_helper(H, dH, value, True)
         may_reach = must_skip = any_raise = False
         blocking: list[Node] = []
         seen_vals: list[t.Any] = []
         for v in may_vals:
-            if v is _RAISE or any(v is s or (type(v) is type(s) and v == s) for s in seen_vals):
+            if any(same(v, s_) for s_ in seen_vals):
                 continue
             seen_vals.append(v)
-            mr, ms, bl = kept(chain, v)
+            forced = any(same(v, s_) for s_ in def_vals)
+            if isinstance(v, _Raised):
+                escapes, mr = after_raise(chain[-1], v.exc)
+                may_reach = may_reach or mr
+                if forced:
+                    must_skip = True
+                    any_raise = any_raise or escapes
+                continue
+            mr, ms, bl = kept(chain, v, item)
             may_reach = may_reach or mr
             blocking += bl
-            if any(v is s or (type(v) is type(s) and v == s) for s in def_vals):
+            if forced:
                 must_skip = must_skip or ms
                 any_raise = any_raise or raised[0]
-        if any(v is _RAISE for v in def_vals):
-            must_skip = any_raise = True
         raised[0] = any_raise
         return may_reach, must_skip, blocking
 
-    def judge(chain: list, value: float, label: str, inhabited: bool, witness: str | None, src: str, sk: str, via: tuple[FuncInfo, t.Any] | None = None) -> None:
+    def judge(chain: list, value: float, label: str, inhabited: bool, witness: str | None, src: str, sk: str, via: tuple[FuncInfo, t.Any] | None = None, whole: t.Any = None) -> None:
+        """``whole``: what the origin's expression evaluates to when that is more than the quality (an unpacked tuple)."""
         keep = 0 <= value <= 1
         at = chain[-1].stmt
         if not inhabited:
             ctx.ob("R17.1", f"{src}: {label}", True, "no text accepted by the pattern has a value in this range", fi, at, f"q {sk} range {label}")
             return
-        may_reach, may_skip, blocking = outcome(chain, value, via)
+        item = not keep and sk == "float"  # a value read from the header that must be ignored: no quality may stand in for it
+        may_reach, may_skip, blocking = outcome(chain, value, via, item) if whole is None else kept(chain, whole, item)
         ok = (may_reach and not may_skip) if keep else (not may_reach and not raised[0])
         if blocking:
-            raise AnalysisError(f"parse_accept_header: cannot evaluate `{norm(blocking[0].ast)}` for q={value}")  # type: ignore[arg-type]
+            raise AnalysisError(f"{here}: cannot evaluate `{norm(blocking[0].ast)}` for q={value}")  # type: ignore[arg-type]
         eg = f"the pattern lets e.g. q={witness} through; " if witness is not None else ""
         if keep:
             fact = f"{eg}evaluated at q={value:g}: item {'is always appended' if ok else 'can be dropped' if may_reach else 'is never appended'}"
@@ -450,12 +795,15 @@ def _r171(ctx: Ctx, folder: Folder) -> None:
     RFCQ = Lang.from_pattern(RFCQ_PAT)
     count = {"float": 0, "const": 0, "samples": 0, "guarded": 0}
 
-    def constant_source(chain: list, c: float | int, shown: str, how_nodes: list[tuple[Node, str]]) -> None:
+    def constant_source(chain: list, c: float | int, shown: str, how_nodes: list[tuple[Node, str]], whole: t.Any = None) -> None:
         count["const"] += 1
-        judge(chain, float(c), label_of(float(c)), True, None, f"constant {c:g}", f"constant {c:g}")
+        judge(chain, float(c), label_of(float(c)), True, None, f"constant {c:g}", f"constant {c:g}", None, whole)
         # a constant cannot come from the header text: it is the quality of an item that carries no q parameter
         how = [f"`{norm(tn.ast)}` is {'true' if lb == 'T' else 'false'}" for tn, lb in how_nodes if tn.kind == "test" and tn.ast is not None]
-        ctx.ob("R17.1", "an item without a q parameter has quality 1", c == 1, f"`{shown}` (reached when {' and '.join(how) or 'always'})", fi, chain[-1].stmt, "default quality")
+        if kept(chain, float(c) if whole is None else whole)[0]:
+            ctx.ob("R17.1", "an item without a q parameter has quality 1", c == 1, f"`{shown}` (reached when {' and '.join(how) or 'always'})", fi, chain[-1].stmt, "default quality")
+        else:
+            ctx.ob("R17.1", f"the constant {c:g} is a marker: no pair carries it", True, f"`{shown}`: with that value the item is never handed on", fi, chain[-1].stmt, f"constant {c:g} marker")
 
     def float_source(F: FuncInfo, feF: FuncEval, dF: t.Any, chain: list, via: tuple[FuncInfo, t.Any] | None) -> None:
         """dF: `x = float(<text>)` in F (parse_accept_header itself, or the helper that computes the quality)."""
@@ -465,34 +813,38 @@ def _r171(ctx: Ctx, folder: Folder) -> None:
         src = f"float({norm(arg)})"
         found = None
         for tn, lb in feF.cfg.guards(dF.node):
-            if tn.kind != "test":
+            if tn.kind != "test" or lb not in ("T", "F"):
                 continue
-            r = _regex_test(ctx, folder, F, feF, tn, lb)
-            if r is None:
-                continue
-            rx, name, mode, subject, at, _want = r
-            same = norm(subject) == norm(arg) and all(feF.rd.reaching(at, nm) == feF.rd.reaching(dF.node, nm) for nm in astq.names_in(subject))
-            if same:
-                found = (rx, name, mode, tn)
+            fact = _match_fact(ctx, folder, F, feF, tn.ast, tn, lb == "T")
+            if fact is not None and fact.fi is F and _converted_text_matched(feF, fact, arg, dF.node):
+                found = (fact.rx, fact.name, fact.mode, tn, lb, F)
         if found is None and F is not fi and isinstance(arg, ast.Name) and arg.id in F.params and {d.kind for d in feF.rd.reaching(dF.node, arg.id)} == {"param"}:
             # the text is the helper's parameter, untouched: the test may sit in parse_accept_header, on the argument it passes
             d0 = chain[-1]
             passed = d0.value.args[F.params.index(arg.id)]
             for tn, lb in cfg.guards(d0.node):
-                if tn.kind != "test":
+                if tn.kind != "test" or lb not in ("T", "F"):
                     continue
-                r = _regex_test(ctx, folder, fi, base, tn, lb)
-                if r is None:
-                    continue
-                rx, name, mode, subject, at, _want = r
-                if norm(subject) == norm(passed) and all(rd.reaching(at, nm) == rd.reaching(d0.node, nm) for nm in astq.names_in(subject)):
-                    found = (rx, name, mode, tn)
+                fact = _match_fact(ctx, folder, fi, base, tn.ast, tn, lb == "T")
+                if fact is not None and fact.fi is fi and _converted_text_matched(base, fact, passed, d0.node):
+                    found = (fact.rx, fact.name, fact.mode, tn, lb, fi)
         if found is None:
             ctx.ob("R17.1", f"{src} is dominated by a successful pattern test on the same text", False,
                    "no `<pattern>.fullmatch(text)` outcome dominates the conversion: a malformed q reaches float() (ValueError, or 'nan'/'1e0' accepted)", fi, dF.stmt, "q float guarded")
             return
-        rx, name, mode, tn = found
+        rx, name, mode, tn, lb_ok, where = found
         count["guarded"] += 1
+        # the other outcome of that test: the text is not a numeral the pattern accepts (or fails whatever else the
+        # tested value stands for) - the item must be dropped, no quality may be made up for it
+        failed = [s_ for s_, l in tn.succs if l == ("F" if lb_ok == "T" else "T")]
+        if where is fi:
+            fe_ = FuncEval(repo, folder, fi)
+            fe_.assume.append((tn, lb_ok != "T"))  # the same condition tested again has the same outcome
+            seen_ = fe_.explore(failed, stop=a_ids | ends)
+            ctx.ob("R17.1", "an item whose q text fails the pattern test is ignored", not (seen_ & a_ids),
+                   f"from the failing outcome of `{norm(tn.ast)}` the item {'can still be handed on as a pair' if seen_ & a_ids else 'is never handed on'}", fi, tn.ast, "q pattern failure ignored")
+        else:
+            rejected.setdefault(where.fq, []).extend(failed)
         _Q_PATTERNS.setdefault(id(ctx), []).append((rx, name, mode))
         ctx.ob("R17.1", f"{src} is dominated by a successful pattern test on the same text", True, f"`{norm(tn.ast)}` ({name} = {rx.pattern!r}, flags {rx.flags}) dominates the conversion" + (f" in {F.qualname}" if F is not fi else ""), fi, dF.stmt, "q float guarded")
         try:
@@ -527,44 +879,68 @@ def _r171(ctx: Ctx, folder: Folder) -> None:
             count["samples"] += 1
             judge(chain, sv, lab if per_label[lab] == 1 else f"{lab} (sample {sv:g})", wit is not None, wit, src, "float", via)
 
+    for sk, c in literal:
+        # a constant written into the pair: the quality of an item that carries no q parameter
+        count["const"] += 1
+        how = [f"`{norm(tn.ast)}` is {'true' if lb == 'T' else 'false'}" for tn, lb in cfg.guards(sk.qnode) if tn.kind == "test" and tn.ast is not None]
+        ctx.ob("R17.1", "an item without a q parameter has quality 1", c == 1, f"`{norm(sk.stmt)}` (reached when {' and '.join(how) or 'always'})", fi, sk.stmt, "default quality")
     for d0, chain in origins:
-        v = d0.value if _plain(d0) else None
+        v = d0.value if _plain(d0) or unpacked(d0) else FuncEval._literal_elt(d0) if d0.kind == "unpack" else None
         c = _num_const(v)
         if c is not None:
             constant_source(chain, c, norm(d0.stmt), cfg.guards(d0.node))
             continue
-        if _is_float_call(repo, fi, v):
-            float_source(fi, base, d0, chain, None)
+        if _is_float_call(repo, fi, v) and not unpacked(d0):
+            float_source(fi, base, d0 if d0.value is v else _ArmSrc(d0, v), chain, None)
             continue
         H = _module_helper(fi, base, d0.node, v)
         if H is None:
-            raise AnalysisError(f"parse_accept_header: cannot interpret the quality definition `{norm(d0.stmt) if d0.stmt is not None else d0.kind}` (expected a constant, float(<text>) or a helper of this module that computes it)")
-        # ---- the quality is computed by a helper: its conversions, and what it returns without converting ----
+            raise AnalysisError(f"{here}: cannot interpret the quality definition `{norm(d0.stmt) if d0.stmt is not None else d0.kind}` (expected a constant, float(<text>) or a helper of this module that computes it)")
+        # ---- the quality is computed by a helper: its conversions, and what it hands back without converting ----
         ctx.saw(H)
         feH = FuncEval(repo, folder, H)
         conv = [d for ds in feH.rd.gen.values() for d in ds if _plain(d) and _is_float_call(repo, H, d.value)]
-        conv += [_RetSrc(feH.cfg.node_of(r), r) for r in astq.returns_of(H.node) if _is_float_call(repo, H, r.value)]  # type: ignore[arg-type]
+        if not unpacked(d0):
+            conv += [_RetSrc(feH.cfg.node_of(r), r) for r in astq.returns_of(H.node) if _is_float_call(repo, H, r.value)]  # type: ignore[arg-type]
         if not conv:
-            raise AnalysisError(f"parse_accept_header: quality helper {H.qualname} has no float(<text>) conversion (conversion slot)")
+            raise AnalysisError(f"{here}: quality helper {H.qualname} has no float(<text>) conversion (conversion slot)")
         for dH in sorted(conv, key=lambda d: getattr(d.stmt, "lineno", 0)):
             float_source(H, feH, dH, chain, (H, dH))
         early = FuncEval(repo, folder, H)
+        after_failure = early.explore(rejected.get(H.fq, []), avoid={d.node.id for d in conv}) if rejected.get(H.fq) else set()
         seen = early.explore([early.cfg.entry], avoid={d.node.id for d in conv})
         for n in early.cfg.nodes:
-            if not (n.id in seen and n.kind == "stmt" and isinstance(n.ast, ast.Return)):
+            if not (n.id in seen and n.kind == "stmt"):
+                continue
+            if isinstance(n.ast, ast.Raise) and (n.id, early.cfg.raise_exit.id) in early.edges:
+                exc = _raised_name(n.ast)
+                escapes, may_reach = after_raise(d0, exc)
+                ctx.ob("R17.1", f"a q text that {H.qualname} rejects (raises {exc or 'an exception'}) is ignored", not escapes and not may_reach,
+                       f"`{norm(n.ast)}` in {H.qualname}: " + ("no handler around the call catches it, the whole header is lost" if escapes else f"caught around `{norm(d0.stmt)}`; the item {'can still reach result.append' if may_reach else 'is never appended'}"),
+                       fi, d0.stmt, f"q helper rejection ignored ({norm(n.ast)})")
+                continue
+            if not isinstance(n.ast, ast.Return):
                 continue
             rv = early.ev_at(n).val(n.ast.value) if n.ast.value is not None else None
-            if rv is None:
-                may_reach, _ms, blocking = kept(chain, None)
-                if blocking:
-                    raise AnalysisError(f"parse_accept_header: cannot evaluate `{norm(blocking[0].ast)}` when {H.qualname} returns None")  # type: ignore[arg-type]
-                ctx.ob("R17.1", f"a q text that {H.qualname} rejects (returns None) is ignored", not may_reach,
-                       f"`{norm(n.ast)}` in {H.qualname}: with that result the item {'reaches result.append' if may_reach else 'is never appended'}", fi, d0.stmt, "q helper rejection ignored")
-            elif isinstance(rv, (int, float)) and not isinstance(rv, bool):
-                constant_source(chain, rv, f"{norm(n.ast)} in {H.qualname}", early.cfg.guards(n))
+            if unpacked(d0) and not isinstance(rv, (tuple, list)):
+                raise AnalysisError(f"{here}: cannot interpret `{norm(n.ast)}` of quality helper {H.qualname} (unpacked by `{norm(d0.stmt)}`)")
+            qv = component(d0, rv)
+            if rv is UNK or (isinstance(rv, (tuple, list)) and any(x is UNK for x in rv)) or not (qv is None or (isinstance(qv, (int, float)) and not isinstance(qv, bool))):
+                raise AnalysisError(f"{here}: cannot interpret `{norm(n.ast)}` of quality helper {H.qualname}")
+            may_reach, _ms, blocking = kept(chain, rv, qv is None)
+            if blocking:
+                raise AnalysisError(f"{here}: cannot evaluate `{norm(blocking[0].ast)}` when {H.qualname} returns {rv!r}")  # type: ignore[arg-type]
+            if qv is None or not may_reach:
+                # handed back without converting anything, and the caller drops the item: a rejection
+                ctx.ob("R17.1", f"a q text that {H.qualname} rejects (returns {rv!r}) is ignored", not may_reach,
+                       f"`{norm(n.ast)}` in {H.qualname}: with that result the item {'reaches result.append' if may_reach else 'is never appended'}", fi, d0.stmt,
+                       "q helper rejection ignored" if rv is None else f"q helper rejection ignored ({norm(n.ast)})")
+            elif n.id in after_failure:
+                ctx.ob("R17.1", f"a q text that fails the pattern test in {H.qualname} is ignored", False,
+                       f"`{norm(n.ast)}` in {H.qualname} can follow the failing outcome of the pattern test, and with that result the item reaches result.append (quality {qv!r} made up for a malformed q)", fi, d0.stmt, f"q helper rejection ignored ({norm(n.ast)})")
             else:
-                raise AnalysisError(f"parse_accept_header: cannot interpret `{norm(n.ast)}` of quality helper {H.qualname}")
-    ctx.floor("R17.1", "origins of the quality reaching the append", len(origins), 1)
+                constant_source(chain, qv, f"{norm(n.ast)} in {H.qualname}", early.cfg.guards(n), rv)
+    ctx.floor("R17.1", "origins of the quality reaching the append", len(origins) + len(literal), 1)
     ctx.floor("R17.1", "float() conversions of a q text", count["float"], 1)
     ctx.floor("R17.1", "constant qualities", count["const"], 1)
     ctx.floor("R17.1", "value-range samples (5 per guarded conversion)", count["samples"], 5 * count["guarded"])
@@ -590,13 +966,8 @@ def _r172(ctx: Ctx, folder: Folder, accept: ClassInfo, fam: list[ClassInfo]) -> 
     if bm is None:
         raise AnchorMissing("Accept.best_match missing")
     ctx.saw(bm)
-    base = FuncEval(repo, folder, bm)
-    cfg, rd = base.cfg, base.rd
-    params = bm.params
-    if len(params) < 3:
+    if len(bm.params) < 3:
         raise AnalysisError("Accept.best_match: expected (self, offers, default)")
-    offers_p, default_p = params[1], params[2]
-
     # every class of the family negotiates through an analysed best_match / lookup
     la = repo.try_cls("datastructures.accept.LanguageAccept")
     analysed = {bm.fq} | ({la.methods["best_match"].fq} if la is not None and "best_match" in la.methods else set())
@@ -607,6 +978,143 @@ def _r172(ctx: Ctx, folder: Folder, accept: ClassInfo, fam: list[ClassInfo]) -> 
                 raise AnalysisError(f"{c.name}.{nm} does not resolve to a method")
             if nm == "best_match" and w.fq not in analysed or nm != "best_match" and w.cls is not accept:
                 raise AnalysisError(f"{c.name}.{nm} resolves to {w.fq}, which these rules do not analyse")
+
+    # not the one-loop-with-best-so-far-state shape, a step of it this evaluator cannot decide, or a clause of that shape
+    # that does not hold: what the function returns on every short offer list decides
+    _arbitrate(ctx, lambda: _selection_loop(ctx, folder, accept, fam, normalised(bm)), lambda: _selection_model(ctx, folder, bm))
+    if la is not None and "best_match" in la.methods:
+        _language_fallbacks(ctx, folder, accept, fam, la, bm)
+
+
+def _arbitrate(ctx: Ctx, structural: t.Callable[[], None], model: t.Callable[[], str | None]) -> None:
+    """run the shape-based clauses; when they cannot be decided (AnalysisError) or one of them does not hold, the
+    function is judged by ``model`` instead - following it statement by statement on an exhaustive set of small
+    inputs - and that verdict replaces the shape-based one.  When the function cannot be followed either (``model``
+    returns the reason), the shape-based outcome stands."""
+    mark = (len(ctx.obligations), len(ctx.floors), len(ctx.errors))
+    failed: AnalysisError | None = None
+    try:
+        structural()
+    except AnchorMissing:
+        raise
+    except AnalysisError as e:
+        failed = e
+    if failed is None and all(o.ok for o in ctx.obligations[mark[0]:]):
+        return
+    kept_ = (ctx.obligations[mark[0]:], ctx.floors[mark[1]:], ctx.errors[mark[2]:])
+    del ctx.obligations[mark[0]:], ctx.floors[mark[1]:], ctx.errors[mark[2]:]
+    why = model()
+    if why is None:
+        return
+    del ctx.obligations[mark[0]:], ctx.floors[mark[1]:], ctx.errors[mark[2]:]
+    if failed is not None:
+        raise AnalysisError(f"{failed} [and not decidable by following the function on sample inputs: {why}]")
+    ctx.obligations.extend(kept_[0])
+    ctx.floors.extend(kept_[1])
+    ctx.errors.extend(kept_[2])
+
+
+def _selection_model(ctx: Ctx, folder: Folder, bm: FuncInfo) -> str | None:
+    """Accept.best_match followed statement by statement on every offer list of up to three offers, each offer being
+    unmatched or matched by a range of quality 0 / low / high and specificity low / middle / high
+    (self._best_single_match and self._specificity answered by the scenario), and compared with the documented choice:
+    the first offer, in caller order, that is matched with q > 0 and whose (quality, specificity) is not exceeded by a
+    later one.  Independent of how the function is written, as long as it can be followed.  Returns a reason when it
+    cannot."""
+    repo = ctx.repo
+    offers_p, default_p = bm.params[1], bm.params[2]
+    DEFAULT = _Sent("default")
+    QS = (0.0, 0.25, 0.5)
+    SS = ((False,), (True,), (True, True))
+    options: list[tuple[float, tuple] | None] = [None] + [(q, s_) for q in QS for s_ in SS]
+
+    def expected(seq: tuple) -> t.Any:
+        best: t.Any = None
+        win: t.Any = DEFAULT
+        for i, o in enumerate(seq):
+            if o is None or o[0] <= 0:
+                continue
+            if best is None or (o[0], o[1]) > best:
+                best, win = (o[0], o[1]), f"offer{i}"
+        return win
+
+    stuck: list[str] = []
+
+    def got(seq: tuple) -> t.Any:
+        table = {f"offer{i}": o for i, o in enumerate(seq)}
+
+        def hook(call: ast.Call, ev: Ev, env: dict, fe: FuncEval):
+            if self_call(call, "_best_single_match") and len(call.args) == 1 and not call.keywords:
+                a = ev.val(call.args[0], env)
+                if not isinstance(a, str) or a not in table:
+                    return UNK
+                o = table[a]
+                return None if o is None else (f"range-of-{a}", o[0])
+            if self_call(call, "_specificity") and len(call.args) == 1 and not call.keywords:
+                a = ev.val(call.args[0], env)
+                if not (isinstance(a, str) and a.startswith("range-of-") and table.get(a[9:]) is not None):
+                    return UNK
+                return table[a[9:]][1]
+            return NotImplemented
+
+        fe = FuncEval(repo, folder, bm, params={offers_p: list(table), default_p: DEFAULT}, call_hook=hook)
+        res = fe.concrete()
+        if res is None or res[1] is UNK:
+            stuck.append(f"offers {[table[k] for k in table]}")
+            return UNK
+        return _Sent("an exception") if res[0] == "raise" else res[1]
+
+    import itertools
+
+    def check(seqs: t.Iterable[tuple]) -> tuple[bool, str, int]:
+        n = 0
+        bad: list[str] = []
+        for seq in seqs:
+            n += 1
+            g, w = got(seq), expected(seq)
+            if g is UNK:
+                return True, "", n
+            if not (g is w or (isinstance(g, str) and g == w)):
+                shown = ", ".join("no range matches" if o is None else f"(q={o[0]:g}, specificity={o[1]})" for o in seq)
+                bad.append(f"offers [{shown}]: returns {g!r}, expected {w!r}")
+        if bad:
+            return False, bad[0] + (f" (and {len(bad) - 1} more of {n} offer lists)" if len(bad) > 1 else ""), n
+        return True, f"{n} offer list(s) followed statement by statement, all as documented", n
+
+    if got(((0.5, (True,)),)) is UNK:
+        return f"cannot follow Accept.best_match statement by statement ({stuck[0]})"
+    total = 0
+    groups: list[tuple[str, str, list[tuple]]] = []
+    groups.append(("without an eligible offer the default is returned", "result initialised to default",
+                   [()] + [tuple(x) for n_ in (1, 2) for x in itertools.product([None, (0.0, (True,)), (0.0, (True, True))], repeat=n_)]))
+    groups.append(("a single eligible offer is chosen", "best_match first eligible offer", [((q, s_),) for q in QS[1:] for s_ in SS]))
+    groups.append(("an offer that no range matches is never chosen and does not disturb the choice", "match gate",
+                   [x for o in options[1:] for x in ((o, None), (None, o))]))
+    groups.append(("an offer whose range has quality 0 is never chosen", "best_match zero quality",
+                   [x for o in options[1:] if o[0] > 0 for z in SS for x in ((o, (0.0, z)), ((0.0, z), o))]))
+    for rq, (q, bq) in (("<", (0.25, 0.5)), ("=", (0.5, 0.5)), (">", (0.5, 0.25))):
+        for rs, (s_, bs) in (("<", (SS[0], SS[1])), ("=", (SS[1], SS[1])), (">", (SS[2], SS[1]))):
+            exp = rq == ">" or (rq == "=" and rs == ">")
+            groups.append((f"[quality > 0, quality {rq} best quality, specificity {rs} best specificity] -> {'replace' if exp else 'keep'}", f"best_match scenario q> 0 {rq} {rs}", [((bq, bs), (q, s_))]))
+    groups.append(("the best-so-far standard moves exactly with the choice (all lists of three offers)", "state update", [tuple(x) for x in itertools.product(options, repeat=3)]))
+    for text, cons, seqs in groups:
+        ok, fact, n = check(seqs)
+        total += n
+        if stuck:
+            return f"cannot follow Accept.best_match statement by statement ({stuck[0]})"
+        ctx.ob("R17.2", text, ok, fact, bm, bm.node, cons)
+    ctx.floor("R17.2", "offer lists on which Accept.best_match was followed", total, 1000)
+    return None
+
+
+def _selection_loop(ctx: Ctx, folder: Folder, accept: ClassInfo, fam: list[ClassInfo], bm: FuncInfo) -> None:
+    repo = ctx.repo
+    base = FuncEval(repo, folder, bm)
+    cfg, rd = base.cfg, base.rd
+    params = bm.params
+    if len(params) < 3:
+        raise AnalysisError("Accept.best_match: expected (self, offers, default)")
+    offers_p, default_p = params[1], params[2]
 
     # ---- slots: the offer loop, the name that holds the choice, the statements that replace it --------------
     def def_expr(d: t.Any) -> ast.AST | None:
@@ -717,7 +1225,9 @@ def _r172(ctx: Ctx, folder: Folder, accept: ClassInfo, fam: list[ClassInfo]) -> 
                 return UNK
             return vals[0]
 
-        return FuncEval(repo, folder, bm, loop_values={id(loop): (0, OFFER) if enumerated else OFFER}, call_hook=hook, multi=multi)
+        fe = FuncEval(repo, folder, bm, loop_values={id(loop): (0, OFFER) if enumerated else OFFER}, call_hook=hook, multi=multi)
+        fe.token = lambda: mode[0]
+        return fe
 
     def run_scen(scen: _Scen) -> tuple[bool, bool, list[Node]]:
         fe = make(scen)
@@ -807,9 +1317,6 @@ def _r172(ctx: Ctx, folder: Folder, accept: ClassInfo, fam: list[ClassInfo]) -> 
                     together = True
             ctx.ob("R17.2", f"`{norm(d.stmt)}` happens exactly when the choice is replaced", together,
                    "same straight-line block as the assignment of the result" if together else "the best-so-far state can change without the choice (or the reverse)", bm, d.stmt, f"state update {name}")
-
-    if la is not None and "best_match" in la.methods:
-        _language_fallbacks(ctx, folder, accept, fam, la, bm)
 
 
 class _AcceptObj:
@@ -1071,6 +1578,8 @@ def _first_match(ctx: Ctx, fi: FuncInfo, want: str, miss: t.Any, folder: Folder 
     loop = loops[0]
     head = cfg.node_of(loop)
     assert head is not None
+    if not _in_order(loop.iter, "self") and not _reordered(loop.iter, "self"):
+        raise AnalysisError(f"{fi.qualname}: loop over `{norm(loop.iter)}` is not an iteration of the list itself (first-match slot)")
     ctx.ob("R17.3", f"{fi.qualname} scans the ranges in list order", _in_order(loop.iter, "self"), f"iterates `{norm(loop.iter)}`", fi, loop, f"{fi.qualname} iteration order")
     comp = make_comp(loop.target)
 
@@ -1117,6 +1626,47 @@ def _first_match(ctx: Ctx, fi: FuncInfo, want: str, miss: t.Any, folder: Folder 
     ctx.ob("R17.3", f"{fi.qualname} yields {miss!r} when no range matches", ok_miss, f"after the loop: {[norm(s_) for s_, _ in miss_exprs] or 'falls off the end'}", fi, miss_exprs[0][0] if miss_exprs else fi.node, f"{fi.qualname} miss value")
 
 
+def _first_match_model(ctx: Ctx, fi: FuncInfo, want: str, miss: t.Any, folder: Folder) -> str | None:
+    """fi followed statement by statement on a list of three ranges, for each of the 8 subsets of them that match the
+    offer (self._value_matches answered by the scenario): it must return the first matching range's pair / quality, and
+    ``miss`` when none matches.  Returns a reason when the function cannot be followed."""
+    if len(fi.params) < 2:
+        return "no offer parameter"
+    offer_p = fi.params[1]
+    ranges = [("range0", 0.125), ("range1", 0.25), ("range2", 0.375)]
+    what = "(range, quality) pair" if want == "pair" else "quality"
+    results: dict[tuple[int, ...], tuple[t.Any, t.Any]] = {}
+    for bits in range(8):
+        hit = tuple(i for i in range(3) if bits >> i & 1)
+
+        def hook(call: ast.Call, ev: Ev, env: dict, fe: FuncEval, hit: tuple = hit):
+            if self_call(call, "_value_matches") and len(call.args) == 2 and not call.keywords:
+                a, b = ev.val(call.args[0], env), ev.val(call.args[1], env)
+                if a == "offer" and isinstance(b, str) and b in ("range0", "range1", "range2"):
+                    return int(b[5]) in hit
+                return UNK
+            return NotImplemented
+
+        res = FuncEval(ctx.repo, folder, fi, params={"self": list(ranges), offer_p: "offer"}, call_hook=hook).concrete()
+        if res is None or (res[0] == "return" and res[1] is UNK):
+            return f"cannot follow {fi.qualname} statement by statement when ranges {list(hit)} match"
+        exp = miss if not hit else ranges[hit[0]] if want == "pair" else ranges[hit[0]][1]
+        g = _Sent("an exception") if res[0] == "raise" else tuple(res[1]) if isinstance(res[1], list) else res[1]
+        results[hit] = (g, exp)
+
+    def agree(g: t.Any, e: t.Any) -> bool:
+        return not isinstance(g, _Sent) and g == e and isinstance(g, bool) == isinstance(e, bool) and (g is None) == (e is None)
+
+    for text, cons, sel in (
+        (f"{fi.qualname} yields {miss!r} when no range matches", f"{fi.qualname} miss value", [()]),
+        (f"{fi.qualname} returns the matching range's {what}", f"{fi.qualname} returned component", [(0,), (1,), (2,)]),
+        (f"{fi.qualname} returns at the first range, in list order, that matches the offer", f"{fi.qualname} first match guard", [(0, 1), (0, 2), (1, 2), (0, 1, 2)]),
+    ):
+        bad = [f"ranges {list(h)} of [range0, range1, range2] match: returns {results[h][0]!r}, expected {results[h][1]!r}" for h in sel if not agree(*results[h])]
+        ctx.ob("R17.3", text, not bad, bad[0] if bad else f"followed statement by statement on {len(sel)} match pattern(s) over three ranges", fi, fi.node, cons)
+    return None
+
+
 def _spec_samples(kind: str) -> list[str]:
     return ["*/*", "text/*", "text/html", "text/html;level=1"] if kind == "mime" else ["*", "en"]
 
@@ -1138,7 +1688,7 @@ def _r173(ctx: Ctx, folder: Folder, accept: ClassInfo, fam: list[ClassInfo]) -> 
         if fi is None:
             raise AnchorMissing(f"Accept.{nm} missing")
         ctx.saw(fi)
-        _first_match(ctx, fi, want, miss, folder)
+        _arbitrate(ctx, lambda: _first_match(ctx, fi, want, miss, folder), lambda: _first_match_model(ctx, fi, want, miss, folder))
     ctx.floor("R17.3", "first-match lookups", 2, 2)
     imm = any(k.name.startswith("Immutable") for k in repo.mro(accept)[1:])
     ctx.ob("R17.3", "Accept is an immutable list (order fixed after construction, see C08)", imm, f"MRO: {[k.name for k in repo.mro(accept)][:5]}", accept.fq, None, "Accept immutable")
@@ -1176,6 +1726,70 @@ def _r173(ctx: Ctx, folder: Folder, accept: ClassInfo, fam: list[ClassInfo]) -> 
     if init is None:
         raise AnchorMissing("Accept.__init__ missing")
     ctx.saw(init)
+    _arbitrate(ctx, lambda: _init_sort(ctx, folder, accept, init), lambda: _init_model(ctx, folder, accept, init))
+
+
+def _init_model(ctx: Ctx, folder: Folder, accept: ClassInfo, init: FuncInfo) -> str | None:
+    """Accept.__init__ followed statement by statement on every arrangement of a sample of (range, quality) pairs that
+    is not an Accept already: what it hands to the list constructor must be those pairs, more specific ranges first,
+    higher quality first among equally specific ones, and otherwise in the given order.  Returns a reason when the
+    function cannot be followed."""
+    import itertools
+
+    repo = ctx.repo
+    if len(init.params) < 2:
+        return "no values parameter"
+    values_p = init.params[1]
+    SPEC = {"*": (False,), "en": (True,), "de": (True,), "fr": (True,)}
+    sample = [("*", 1.0), ("en", 0.5), ("de", 0.5), ("fr", 0.75), ("*", 0.25)]
+    bad: dict[str, str] = {}
+    n = 0
+    for perm in itertools.permutations(sample):
+        stored: list[t.Any] = []
+
+        def hook(call: ast.Call, ev: Ev, env: dict, fe: FuncEval):
+            f = call.func
+            if self_call(call, "_specificity") and len(call.args) == 1 and not call.keywords:
+                a = ev.val(call.args[0], env)
+                return SPEC.get(a, UNK) if isinstance(a, str) else UNK
+            if isinstance(f, ast.Attribute) and f.attr == "__init__" and isinstance(f.value, ast.Call) and dotted(f.value.func) == "super" and not f.value.args and not call.keywords:
+                stored.append([ev.val(a, env) for a in call.args])
+                return None
+            if astq.is_name(f, "isinstance") and len(call.args) == 2 and not call.keywords:
+                fq = repo.resolve(init.module, dotted(call.args[1]) or "?")
+                k = repo.try_cls(fq) if fq and fq.startswith("werkzeug") else None
+                if k is not None and isinstance(ev.val(call.args[0], env), (list, tuple)):
+                    return False  # the sample is a plain list of pairs
+                return UNK
+            return NotImplemented
+
+        res = FuncEval(repo, folder, init, params={values_p: list(perm)}, call_hook=hook).concrete()
+        if res is None or res[0] != "return" or len(stored) != 1 or len(stored[0]) != 1 or not isinstance(stored[0][0], (list, tuple)):
+            return f"cannot follow Accept.__init__ statement by statement on {list(perm)}" + (f" (list constructor called {len(stored)} times)" if res is not None else "")
+        n += 1
+        got = [tuple(x) if isinstance(x, list) else x for x in stored[0][0]]
+        shown = f"given {list(perm)} the list becomes {got}"
+        if sorted(map(repr, got)) != sorted(map(repr, perm)):
+            bad.setdefault("sort input", shown + ": not the given pairs")
+            continue
+        for i, j in itertools.combinations(range(len(got)), 2):
+            a, b = got[i], got[j]
+            if SPEC[b[0]] > SPEC[a[0]]:
+                bad.setdefault("sort specificity major", shown + f": {b} comes after the less specific {a}")
+            elif SPEC[b[0]] == SPEC[a[0]] and b[1] > a[1]:
+                bad.setdefault("sort quality minor", shown + f": {b} comes after {a}, equally specific and of lower quality")
+            elif SPEC[b[0]] == SPEC[a[0]] and b[1] == a[1] and perm.index(b) < perm.index(a):
+                bad.setdefault("sort ties", shown + f": {a} and {b} rank equally but are not in the client's order")
+    fine = f"{n} arrangements of {sample} followed statement by statement"
+    ctx.ob("R17.3", "the sort covers the given values", "sort input" not in bad, bad.get("sort input", fine), init, init.node, "sort input")
+    ctx.ob("R17.3", "sort order: a more specific range precedes a wildcard of higher quality", "sort specificity major" not in bad, bad.get("sort specificity major", fine), init, init.node, "sort specificity major")
+    ctx.ob("R17.3", "sort order: among equally specific ranges the higher quality comes first", "sort quality minor" not in bad, bad.get("sort quality minor", fine), init, init.node, "sort quality minor")
+    ctx.ob("R17.3", "sort order: ranges of equal specificity and quality keep the client's order", "sort ties" not in bad, bad.get("sort ties", fine), init, init.node, "sort ties")
+    return None
+
+
+def _init_sort(ctx: Ctx, folder: Folder, accept: ClassInfo, init: FuncInfo) -> None:
+    repo = ctx.repo
     fe = FuncEval(repo, folder, init)
     cfg, rd = fe.cfg, fe.rd
     values_p = init.params[1] if len(init.params) > 1 else None
@@ -1381,8 +1995,9 @@ def _expanded(fe: FuncEval, e: ast.AST, node: Node | None, mp: dict[str, str], d
                 ds = fe.rd.reaching(node, n.id)
                 if len(ds) == 1:
                     d = next(iter(ds))
-                    if _plain(d) and d.value is not None:
-                        return _expanded(fe, d.value, d.node, mp, depth + 1)
+                    v = d.value if _plain(d) else FuncEval._literal_elt(d) if d.kind == "unpack" else None
+                    if v is not None:
+                        return _expanded(fe, v, d.node, mp, depth + 1)
             return ast.copy_location(ast.Name(id=mp.get(n.id, n.id), ctx=n.ctx), n)
 
         def visit_NamedExpr(self, n: ast.NamedExpr) -> ast.AST:
